@@ -369,4 +369,173 @@ theorem term_esc (v rest : Str) (h : escTermOK v = true) (hk : kwStart v = false
   rw [noKeyword_esc v rest hne' hk hr, termScan_esc v rest h hr]
   simp
 
+
+/-! ### `NUMERIC_TERM` with something after it -/
+
+/-- what may follow a number for the number to be scanned the same way -/
+def numStop (rest : Str) : Bool :=
+  match rest with
+  | [] => true
+  | c :: _ => !isAsciiDigit c && c != '.' && c != 'E' && c != '-' && c != '\\'
+
+theorem digits_nil : digits [] = ([], []) := rfl
+
+theorem digits_cons (c : Char) (r : Str) :
+    digits (c :: r) = if isAsciiDigit c then (c :: (digits r).1, (digits r).2) else ([], c :: r) := by
+  rw [digits]
+
+theorem digits_stop (rest : Str) (h : numStop rest = true) : digits rest = ([], rest) := by
+  cases rest with
+  | nil => rfl
+  | cons c r =>
+    simp only [numStop, Bool.and_eq_true, Bool.not_eq_true'] at h
+    rw [digits_cons, h.1.1.1.1]; rfl
+
+theorem digits_append : (a rest : Str) → numStop rest = true →
+    digits (a ++ rest) = ((digits a).1, (digits a).2 ++ rest)
+  | [], rest, h => by simp [digits_stop rest h, digits_nil]
+  | c :: a, rest, h => by
+    rw [List.cons_append, digits_cons, digits_cons]
+    by_cases hc : isAsciiDigit c = true
+    · simp [hc, digits_append a rest h]
+    · simp [hc]
+
+theorem numUnsigned_append (a rest x r : Str) (hs : numStop rest = true) (h : numUnsigned a = some (x, r)) :
+    numUnsigned (a ++ rest) = some (x, r ++ rest) := by
+  unfold numUnsigned at h ⊢
+  rw [digits_append a rest hs]
+  simp only at h ⊢
+  by_cases he : (digits a).1.isEmpty = true
+  · simp [he] at h
+  · simp only [he, Bool.false_eq_true, if_false] at h ⊢
+    cases hd : (digits a).2 with
+    | nil =>
+      simp only [hd] at h
+      simp only [List.nil_append]
+      cases rest with
+      | nil => simpa using h
+      | cons c r' =>
+        simp only [numStop, Bool.and_eq_true, Bool.not_eq_true', bne_iff_ne, ne_eq] at hs
+        have hc : c ≠ '.' := hs.1.1.1.2
+        simp only [hc, if_false]
+        simp only [Option.some.injEq, Prod.mk.injEq] at h
+        obtain ⟨rfl, rfl⟩ := h
+        rfl
+    | cons c r2 =>
+      simp only [hd] at h
+      simp only [List.cons_append]
+      by_cases hc : c = '.'
+      · simp only [hc, if_true] at h ⊢
+        rw [digits_append r2 rest hs]
+        simp only
+        by_cases hf : (digits r2).1.isEmpty = true
+        · simp only [hf, if_true, Option.some.injEq, Prod.mk.injEq] at h ⊢
+          obtain ⟨rfl, rfl⟩ := h
+          exact ⟨rfl, rfl⟩
+        · simp only [hf, Bool.false_eq_true, if_false, Option.some.injEq, Prod.mk.injEq] at h ⊢
+          obtain ⟨rfl, rfl⟩ := h
+          exact ⟨rfl, rfl⟩
+      · simp only [hc, if_false, Option.some.injEq, Prod.mk.injEq] at h ⊢
+        obtain ⟨rfl, rfl⟩ := h
+        exact ⟨rfl, rfl⟩
+
+theorem numUnsigned_none_append (a rest : Str) (hs : numStop rest = true) (h : numUnsigned a = none) :
+    numUnsigned (a ++ rest) = none := by
+  unfold numUnsigned at h ⊢
+  rw [digits_append a rest hs]
+  simp only at h ⊢
+  by_cases he : (digits a).1.isEmpty = true
+  · simp [he]
+  · simp only [he, Bool.false_eq_true, if_false] at h
+    cases hd : (digits a).2 with
+    | nil => simp [hd] at h
+    | cons c r2 =>
+      simp only [hd] at h
+      by_cases hc : c = '.'
+      · simp only [hc, if_true] at h
+        by_cases hf : (digits r2).1.isEmpty = true <;> simp [hf] at h
+      · simp [hc] at h
+
+theorem numSign_append (a rest : Str) (hs : numStop rest = true) :
+    numSign (a ++ rest) = ((numSign a).1, (numSign a).2 ++ rest) := by
+  cases a with
+  | nil =>
+    cases rest with
+    | nil => rfl
+    | cons c r =>
+      simp only [numStop, Bool.and_eq_true, Bool.not_eq_true', bne_iff_ne, ne_eq] at hs
+      simp [numSign, hs.1.2, hs.2]
+  | cons c a =>
+    by_cases h1 : c = '-'
+    · simp [numSign, h1]
+    · by_cases h2 : c = '\\'
+      · subst h2
+        cases a with
+        | nil =>
+          cases rest with
+          | nil => rfl
+          | cons d r =>
+            simp only [numStop, Bool.and_eq_true, Bool.not_eq_true', bne_iff_ne, ne_eq] at hs
+            simp [numSign, hs.1.2]
+        | cons d a =>
+          by_cases h3 : d = '-' <;> simp [numSign, h3]
+      · simp [numSign, h1, h2]
+
+theorem numValue_append (a rest x r : Str) (hs : numStop rest = true) (h : numValue a = some (x, r)) :
+    numValue (a ++ rest) = some (x, r ++ rest) := by
+  unfold numValue at h ⊢
+  rw [numSign_append a rest hs]
+  simp only at h ⊢
+  cases hu : numUnsigned (numSign a).2 with
+  | none => simp [hu] at h
+  | some p =>
+    obtain ⟨x', r'⟩ := p
+    simp only [hu, Option.map_some, Option.some.injEq, Prod.mk.injEq] at h
+    obtain ⟨rfl, rfl⟩ := h
+    rw [numUnsigned_append _ rest x' r' hs hu]
+    rfl
+
+theorem numValue_none_append (a rest : Str) (hs : numStop rest = true) (h : numValue a = none) :
+    numValue (a ++ rest) = none := by
+  unfold numValue at h ⊢
+  rw [numSign_append a rest hs]
+  simp only at h ⊢
+  cases hu : numUnsigned (numSign a).2 with
+  | none => rw [numUnsigned_none_append _ rest hs hu]; rfl
+  | some p => simp [hu] at h
+
+/-- a text that is wholly a `NUMERIC_TERM` is still read as that `NUMERIC_TERM` when followed by
+    something that cannot continue a number -/
+theorem numericTerm_append (p rest : Str) (hs : numStop rest = true) (h : numericTerm p = some (p, [])) :
+    numericTerm (p ++ rest) = some (p, rest) := by
+  unfold numericTerm at h ⊢
+  cases hv : numValue p with
+  | none => simp [hv] at h
+  | some q =>
+    obtain ⟨a, r⟩ := q
+    simp only [hv] at h
+    rw [numValue_append p rest a r hs hv]
+    simp only
+    cases r with
+    | nil =>
+      simp only [Option.some.injEq, Prod.mk.injEq] at h
+      simp only [List.nil_append]
+      cases rest with
+      | nil => simpa using h.1
+      | cons c r' =>
+        simp only [numStop, Bool.and_eq_true, Bool.not_eq_true', bne_iff_ne, ne_eq] at hs
+        simp [hs.1.1.2, h.1]
+    | cons c r1 =>
+      simp only [List.cons_append]
+      by_cases hc : c = 'E'
+      · simp only [hc, if_true] at h ⊢
+        cases hv2 : numValue r1 with
+        | none => simp [hv2] at h
+        | some q2 =>
+          obtain ⟨b, r2⟩ := q2
+          simp only [hv2, Option.some.injEq, Prod.mk.injEq] at h
+          rw [numValue_append r1 rest b r2 hs hv2]
+          simp [h.1, h.2]
+      · simp [hc] at h
+
 end Search
